@@ -5,6 +5,7 @@
 -/
 import Driver.Util
 import Driver.Mlpg
+import Driver.Voc
 import Jb.Model.Engine
 
 namespace Drv.Pipe
@@ -107,10 +108,20 @@ def trajDiff (name : String) (rtol : Float) (m i : List (List Float)) : Option S
     check ((fa.zip fb).all fun (x, y) => (x == nodata) == (y == nodata)) s!"{name}: NODATA pattern differs",
     check (closeList rtol scale fa fb) s!"{name}: trajectory differs beyond rtol={rtol} {firstDiff rtol scale fa fb}" ]
 
-/-- stable range of the recursive synthesis filter: every frame's spectral shape within ±4 nepers of its gain -/
-def stableRange (stage : Nat) (sp : List (List Float)) : Bool :=
+/-- stable range of the recursive synthesis filter: every frame's spectral shape within ±4 nepers of its gain.
+    Mel-cepstrum: Σ_{m≥1}|c_m| ≤ 4 bounds the shape. LSP (stage s ≥ 1): the gain positive, the frequencies increasing inside
+    (0, π) and `s·|ln|A(e^{jω})||` ≤ 4 on a 64-point grid, `A` built from the LSP factors. -/
+def stableRange (stage : Nat) (logGain : Bool) (sp : List (List Float)) : Bool :=
   sp.all fun fr => fr.all (fun x => !x.isNaN && !x.isInf) &&
-    (if stage == 0 then ((fr.drop 1).foldl (fun a x => a + fabs x) 0.0) ≤ 4.0 else true)
+    (if stage == 0 then ((fr.drop 1).foldl (fun a x => a + fabs x) 0.0) ≤ 4.0
+     else
+       let w := fr.drop 1
+       let increasing := (w.zip (w.drop 1)).all (fun (a, b) => a < b) && w.all (fun x => 0.0 < x && x < Drv.Voc.pi)
+       increasing && (logGain || fr.headD 0.0 > 0.0) &&
+         (let a := Drv.Voc.lspToA w
+          (List.range 65).all fun i =>
+            let om := Drv.Voc.pi * i.toFloat / 64.0
+            fabs (stage.toFloat * Drv.Voc.logMagAt a om) ≤ 4.0))
 
 def runCase (pc : PipeCase) : Verdict := Id.run do
   let c := pc.c.cond
@@ -159,7 +170,7 @@ def runCase (pc : PipeCase) : Verdict := Id.run do
            match firstBad with
            | none => none
            | some k =>
-             if stableRange c.stage sp then some s!"non-finite sample at {k} although the spectral parameters are inside the stable range"
+             if stableRange c.stage c.useLogGain sp then some s!"non-finite sample at {k} although the spectral parameters are inside the stable range"
              else if (w.take k).any (fun x => fabs x > 1e150) then none
              else some s!"non-finite sample at {k} appears without preceding runaway growth") ]
       | _, _, _ => some "missing outputs"
